@@ -28,11 +28,20 @@ TMutate == /\ IsEv("Mutate")
            /\ LET r == Rec[l] IN
                 IF Strict THEN Mutate(r.f, r.v, r.fix) /\ Logged(r)
                 ELSE /\ kind # "none" /\ kind' = kind
-                     /\ blk' = Fixed(Raw(blk, r.f, r.v), r.f, r.fix, sched)
+                     /\ blk' = Fixed(Raw(blk, r.f, r.v), {r.f}, r.fix, sched)
                      /\ sched' = IF r.f = "sched" THEN SchedMut(sched, blk.height) ELSE sched
-                     /\ mut' = [f |-> r.f, v |-> r.v, fix |-> r.fix]
+                     /\ mut' = [f |-> r.f, v |-> r.v, f2 |-> "none", v2 |-> 0, fix |-> r.fix]
                      /\ Logged(r) /\ act' = [name |-> "Mutate", f |-> r.f, v |-> r.v, fix |-> r.fix]
-TNext == TReset \/ TNew \/ TMutate
+TMutate2 == /\ IsEv("Mutate2")
+            /\ LET r == Rec[l] IN
+                 IF Strict THEN Mutate2(r.f, r.v, r.f2, r.v2, r.fix) /\ Logged(r)
+                 ELSE /\ kind # "none" /\ kind' = kind
+                      /\ blk' = Fixed(Raw(Raw(blk, r.f, r.v), r.f2, r.v2), {r.f, r.f2}, r.fix, sched)
+                      /\ sched' = sched
+                      /\ mut' = [f |-> r.f, v |-> r.v, f2 |-> r.f2, v2 |-> r.v2, fix |-> r.fix]
+                      /\ Logged(r)
+                      /\ act' = [name |-> "Mutate2", f |-> r.f, v |-> r.v, f2 |-> r.f2, v2 |-> r.v2, fix |-> r.fix]
+TNext == TReset \/ TNew \/ TMutate \/ TMutate2
 TSpec == TInit /\ [][TNext]_tvars
 TraceAccepted ==
   LET d == TLCGet("stats").diameter IN
